@@ -502,7 +502,7 @@ for fn in sorted(os.listdir(os.path.join(VERIF, 'corpus'))):
         for j, h in enumerate(obj.get('histories', [])):
             histories.append(('corpus-%s-%d' % (fn[4:-5], j),) + hist_from_json(h))
 rng = chk.rng('writer')
-NH = 12000 if chk.thorough else 1500
+NH = 25000 if chk.thorough else 1500
 for i in range(NH):
     files, ops = gen_history(rng, 40 if chk.thorough and i % 10 == 0 else 12)
     histories.append(('hist-%d' % i, files, ops))
@@ -763,7 +763,7 @@ cli_plan = [
 ]
 rng = chk.rng('cli')
 if chk.thorough:
-    for i in range(14):
+    for i in range(20):
         kind = rng.choice(list(WARN_OPTS))
         nw = WARN_OPTS[kind][1]
         mw = rng.choice([[], [[str(rng.randint(0, 3))]], [['general']], [['general:%d' % rng.randint(0, 2)]],
